@@ -171,13 +171,15 @@ class Check:
 
     def finish(self, rule, explanation=None, extra_cov=None):
         wall = time.time() - self.t0
-        os.makedirs(os.path.join(VERIF, 'evidence'), exist_ok=True)
-        os.makedirs(os.path.join(VERIF, 'replay'), exist_ok=True)
+        # experiments on modified trees (seeded-defect runs) write their evidence and replays elsewhere: VERIF_OUT=<dir>
+        OUT = os.environ.get('VERIF_OUT', VERIF)
+        os.makedirs(os.path.join(OUT, 'evidence'), exist_ok=True)
+        os.makedirs(os.path.join(OUT, 'replay'), exist_ok=True)
         lines = []
         rc = 0
         for h in self.known_hits:
             lines.append(f'KNOWN-FINDING: property={self.pid} {h["what"]}')
-        replay = os.path.join(VERIF, 'replay', f'{self.pid}-{self.tier}-{self.seed}.json')
+        replay = os.path.join(OUT, 'replay', f'{self.pid}-{self.tier}-{self.seed}.json')
         if self.failures:
             rc = 1
             json.dump({'property': self.pid, 'kind': 'failing-input', 'tier': self.tier, 'seed': self.seed,
@@ -222,7 +224,7 @@ class Check:
               'violations': len(self.failures) + (1 if (not self.failures and rc) else 0),
               'known_findings_hit': self.known_hits, 'correspondence_mismatches': len(self.mismatches),
               'theorem_failures': self.theorem_failures}
-        json.dump(ev, open(os.path.join(VERIF, 'evidence', f'{self.pid}.json'), 'w'), indent=1, default=str)
+        json.dump(ev, open(os.path.join(OUT, 'evidence', f'{self.pid}.json'), 'w'), indent=1, default=str)
         for l in lines:
             print(l)
         print(f'[{self.pid}] tier={self.tier} seed={self.seed} evaluations={self.evaluations} cells={len(self.cells)} '
